@@ -20,7 +20,7 @@ RULES = {
     'R9': 'the notifier\'s count is the number of chunks not taken yet, whatever the order of the reader\'s calls: qb_rb_chunk_peek gives the count it waited for back on every path (it takes no chunk), qb_rb_chunk_reclaim and qb_rb_chunk_read take one count for the chunk they take out (reclaim without blocking, and not at all if no count is there), and the internal reclaim they share takes none',
     'R10': 'a size the ring\'s 32-bit words cannot describe is refused at open: the requested size is compared with a constant below 2^32 before the margin is added to it, and the rounded size with a constant below 2^32 before word_size (a 32-bit field, as are the indices and each chunk\'s length word) is computed from it - otherwise the ring is silently smaller than asked for, or chunk lengths and index steps wrap',
 }
-FLOORS = {'R1': 5, 'R2': 9, 'R3': 5, 'R4': 5, 'R5': 9, 'R6': 5, 'R7': 3, 'R8': 2, 'R9': 4, 'R10': 2}
+FLOORS = {'R1': 6, 'R2': 9, 'R3': 5, 'R4': 5, 'R5': 9, 'R6': 5, 'R7': 4, 'R8': 2, 'R9': 4, 'R10': 2}
 
 
 def run(ctx):
@@ -178,6 +178,18 @@ def r1(ctx, H):
                 k = _plus_const(r, lambda v: estr(v) == lenv)
                 if k is not None:
                     ks.append((k, o, b))
+    # every comparison of the free space in alloc is of that form: one that is not (a sum that rounds len up, a helper value) keeps some
+    # other distance between the new chunk and the unread data than the one commit's pre-clearing of two words behind the chunk needs
+    other = []
+    for b in al.blocks.values():
+        c = unwrap(b.cond) if b.cond else None
+        for (l, o, r) in cmp_forms(c) if c else []:
+            if has_call(l, 'qb_rb_space_free') and _plus_const(r, lambda v: estr(v) == lenv) is None:
+                other.append((b, estr(r)))
+    ctx.check('R1', 'every-space-test-keeps-the-margin', not other, '%s:%d (qb_rb_chunk_alloc)' % (al.file, other[0][0].term_ln) if other else al,
+              'every comparison of the free space is with len + the margin',
+              'the free space is compared with %s, not with len + the margin: a chunk that ends one word before the read index is accepted and the two words commit clears behind it overwrite the length word of the oldest unread chunk'
+              % (other[0][1] if other else ''))
     if not ks:
         raise AnalysisBroken('qb_rb_chunk_alloc: no comparison space_free < len + K found')
     # one comparison per mode, or one shared by both modes
@@ -404,6 +416,14 @@ def r7(ctx):
                 if a.op == '==' and ((a.rs in oldv and at_new(a.l)) or (a.ls in oldv and at_new(a.r))):
                     return False        # this edge says: the marker word is the chunk's own first word - skipping is right
             return True
+        # ... and it is skipped then: the index the overwrite stores at is the one compared with the chunk's first word (a chunk that
+        # fills the ring ends one word before its own start; the marker word behind it is its own length word)
+        for m in mclr:
+            mix = estr(unwrap(is_marker_set(m)['index']))
+            same = [a for (a, _e) in f.guards(m) if a.op == '!=' and ((a.rs in oldv and estr(unwrap(a.l)) == mix) or (a.ls in oldv and estr(unwrap(a.r)) == mix))]
+            ctx.check('R7', 'marker-clear-never-hits-own-length-word', bool(same), m,
+                      'the overwrite at %s is made only when that index is not the chunk\'s own first word' % mix,
+                      'the overwrite stores at %s but no test compares that index with the chunk\'s own first word: a chunk that fills the ring (written at index 0, ending on the last word) gets its own length word overwritten with the marker constant and can never be read' % mix)
         hits, _e, _n = f.search(('entry',), goal=lambda ev: ev.d is pub.d, stop=lambda ev: any(ev.d is m.d for m in mclr), edge_filter=own_word)
         ctx.check('R7', 'marker-clear-skipped-only-for-own-word', not hits, pub,
                   'the overwrite is skipped only when the word is the published chunk\'s own length word',
